@@ -3,6 +3,7 @@ package harness
 // C05 Extended-key strings round-trip and are strictly validated.
 
 import (
+	"bytes"
 	"encoding/binary"
 	"fmt"
 	"math/big"
@@ -83,8 +84,30 @@ func evalC05RT(c c05RT, o *Obs) error {
 			}
 		}
 	}
+	// a network of the caller's own making, known to no registry: the key carries its version bytes like any other
+	own := *nets[c.Net].Params
+	own.Name = "own"
+	own.HDPrivateKeyID = [4]byte{0x04, 0x35, c.Seed[0], 0x01}
+	own.HDPublicKeyID = [4]byte{0x04, 0x35, c.Seed[0], 0x02}
+	p.SetNet(&own)
+	wantVer := own.HDPublicKeyID
+	if p.IsPrivate() {
+		wantVer = own.HDPrivateKeyID
+	}
+	s2 := p.String()
+	raw, _ := refB58Decode(s2)
+	if len(raw) != 82 || !bytes.Equal(raw[:4], wantVer[:]) || !bytes.Equal(raw[4:78], mustB58(s)[4:78]) {
+		return fmt.Errorf("key %s moved to a caller-made network (versions %x/%x) serialises to %s: not the same key under that network's version", s, own.HDPrivateKeyID, own.HDPublicKeyID, s2)
+	}
+	p2, err := hdkeychain.NewKeyFromString(s2)
+	if err != nil || p2.String() != s2 {
+		return fmt.Errorf("key %s moved to a caller-made network prints as %s, which does not parse back to itself (err %v)", s, s2, err)
+	}
+	o.Class("C05:rt-own-network")
 	return nil
 }
+
+func mustB58(s string) []byte { b, _ := refB58Decode(s); return b }
 
 var kC05RT = register(&Kind[c05RT]{
 	Prop: "C05", Name: "roundtrip",
